@@ -177,6 +177,13 @@ func (fc *FnCtx) call(ins ssa.Instruction, cc *ssa.CallCommon) {
 	}
 	if fc.eng.isRepoFunc(callee) {
 		fc.calledRepo[callee] = true
+		for i, p := range callee.Params {
+			if i < len(args) {
+				if t := nonNilTerm(args[i], p.Type()); !t.IsZero() {
+					fc.oblige("pre", relName(callee)+": "+p.Name()+" != nil", pos, t)
+				}
+			}
+		}
 		// closure bodies read/write captured variables: unknown effect
 		fc.havocAll("call " + relName(callee))
 		setRes(fc.freshResult(callee.Signature.Results()))
@@ -206,6 +213,9 @@ func (e *Engine) ifaceContract(cc *ssa.CallCommon) *Contract {
 	if c, ok := e.contracts.Funcs[k]; ok {
 		c.Bound = true
 		return c
+	}
+	if e.contracts.IfacePure[contractKey(n.Obj().Pkg().Path(), n.Obj().Name())] {
+		return &Contract{Pkg: n.Obj().Pkg().Path(), Func: "(" + n.Obj().Name() + ").* [delegate callbacks: no effect on gopar state or files]", Pure: true, Assumed: true, HasMod: true, Loops: map[int]*LoopContract{}}
 	}
 	// embedded interface: search by method name in the same package
 	for key, c := range e.contracts.Funcs {
@@ -273,6 +283,13 @@ func (fc *FnCtx) applyContract(c *Contract, cname string, names []string, typs [
 		env.oldBinds[k] = v
 	}
 	site := fc.desc(pos, cname)
+	for i, n := range names {
+		if i < len(args) && !c.isNilable(n) {
+			if t := nonNilTerm(args[i], typs[i]); !t.IsZero() {
+				fc.oblige("pre", cname+": "+n+" != nil", pos, t)
+			}
+		}
+	}
 	for _, r := range c.Requires {
 		t, err := fc.specBool(env, r.Text)
 		if err != nil {
@@ -327,6 +344,14 @@ func (fc *FnCtx) applyContract(c *Contract, cname string, names []string, typs [
 		} else {
 			fc.havocAll("call " + cname)
 		}
+	}
+	for _, pz := range c.Preserves {
+		eqs, err := fc.preservesEqs(env, pz, pre, st)
+		if err != nil {
+			fc.unbound = append(fc.unbound, fmt.Sprintf("call %s preserves %q: %v", cname, pz, err))
+			continue
+		}
+		fc.assume(eqs)
 	}
 	// results
 	res := fc.freshResult(results)
@@ -640,6 +665,7 @@ func (fc *FnCtx) appendBuiltin(cc *ssa.CallCommon, args []Value, pos token.Pos) 
 	grow := fc.define(fc.freshName("grow"), Gt(newLen, s.Cap()))
 	fresh := fc.define(fc.freshName("obj_app"), st.next)
 	st.next = fc.define(fc.freshName("next"), Add(st.next, IntLit(1)))
+	fc.assume(Eq(otypeOf(fresh), IntLit(fc.eng.typeIDByName(arrTag(elem)))))
 	newCap := fc.freshConst("appcap", SInt)
 	fc.assume(And(Ge(newCap, newLen), Le(newCap, Term{"maxSliceCap", SInt})))
 	fc.assume(Le(Mul(newLen, IntLit(fc.eng.sizeofType(elem))), Term{"maxAlloc", SInt}))
@@ -783,4 +809,56 @@ func (e *Engine) needApply(name string, args []Term, res Sort) {
 	}
 	ss = append(ss, res)
 	applyFns[name] = ss
+}
+
+// preservesEqs: the cells of the object designated by expr (a pointer: its
+// pointee; a slice: its elements) are equal in states a and b.
+func (fc *FnCtx) preservesEqs(env *Env, expr string, a, b *State) (Term, error) {
+	sv, err := fc.specExpr(env, strings.TrimSpace(expr))
+	if err != nil {
+		return Term{}, err
+	}
+	var cs []Term
+	switch {
+	case sv.v.K == KPtr:
+		pt, ok := sv.t.Underlying().(*types.Pointer)
+		if !ok {
+			return Term{}, fmt.Errorf("preserves: not a pointer")
+		}
+		n := cellsOf(pt.Elem())
+		if n > 256 {
+			return Term{}, fmt.Errorf("preserves: object too large")
+		}
+		sorts := map[Sort]bool{}
+		fc.sortsOfType(pt.Elem(), sorts)
+		for _, hs := range heapSorts {
+			if !sorts[hs] || a.heap[hs].S == b.heap[hs].S {
+				continue
+			}
+			for k := int64(0); k < n; k++ {
+				off := offPlus(sv.v.Off(), k)
+				cs = append(cs, Eq(Select(Select(a.heap[hs], sv.v.Obj()), off), Select(Select(b.heap[hs], sv.v.Obj()), off)))
+			}
+		}
+	case sv.v.K == KSlice:
+		st, ok := sv.t.Underlying().(*types.Slice)
+		if !ok {
+			return Term{}, fmt.Errorf("preserves: not a slice")
+		}
+		c := cellsOf(st.Elem())
+		sorts := map[Sort]bool{}
+		fc.sortsOfType(st.Elem(), sorts)
+		k := Term{"k!pz", SInt}
+		for _, hs := range heapSorts {
+			if !sorts[hs] || a.heap[hs].S == b.heap[hs].S {
+				continue
+			}
+			body := Implies(And(Le(IntLit(0), k), Lt(k, Mul(sv.v.Len(), IntLit(c)))),
+				Eq(Select(Select(a.heap[hs], sv.v.Obj()), Add(sv.v.Off(), k)), Select(Select(b.heap[hs], sv.v.Obj()), Add(sv.v.Off(), k))))
+			cs = append(cs, Term{fmt.Sprintf("(forall ((k!pz Int)) %s)", body.S), SBool})
+		}
+	default:
+		return Term{}, fmt.Errorf("preserves: %q is neither pointer nor slice", expr)
+	}
+	return And(cs...), nil
 }
